@@ -70,9 +70,7 @@ with bw_stat (flv slv : Z) (reg : loc) (s : stat) (en : env) {struct s} : bres :
     let (en1, os) := bw_block flv (slv + 1) l b en in
     (en, os ++ bw_exp flv (slv + 1) l e en1)
   | SForNum n vl e1 e2 e3 b l =>
-    let lim := bw_exp flv slv reg e2 en in
-    let lim' := if has_func e3 then tag_if (fun o => flv <? s_flv o) CB5 lim else lim in
-    let bounds := bw_exp flv slv reg e1 en ++ lim' ++ bw_exp flv slv reg e3 en in
+    let bounds := bw_exp flv slv reg e1 en ++ bw_exp flv slv reg e2 en ++ bw_exp flv slv reg e3 en in
     (en, tag_if (fun o => outer_use en o && beq_bytes (s_name o) n) CB2 bounds
                 ++ decl_occ en flv (slv + 1) l false (n, vl)
                 :: snd (bw_block flv (slv + 1) l b (push_decls en [(n, vl)] [false])))
